@@ -1661,11 +1661,10 @@ class Fxp():
 
     # reset
     def reset(self):
-        #status (overwrite)
-        self.status = {
-            'overflow': False,
-            'underflow': False,
-            'inaccuracy': False}
+        # clear the three event flags; the rest of the status record (extended_prec) is kept
+        self.status['overflow'] = False
+        self.status['underflow'] = False
+        self.status['inaccuracy'] = False
 
     def _convert_op_input_value(self, x, op_input_size=None):
         if not isinstance(x, Fxp):
